@@ -16,7 +16,13 @@ Crash model (contract, repeated in each property's ASSUMPTIONS):
     symlink) is one step; the call whose step index equals ``crash_at`` does not take effect and
     raises ``Crash`` -- except that a crashed ``write`` leaves the first ``cut`` units of its data
     (a prefix, possibly all of it) in the file;
-  * writes are not buffered: ``flush``/``close``/``fsync`` are no-ops;
+  * file objects are buffered like CPython's (``FakeFile``): ``write`` fills a per-handle buffer of
+    ``bufsize`` units (8192 unless the harness scales it or ``open`` is given an explicit size;
+    ``buffering=0`` = unbuffered); the buffer goes to the disk -- one step -- at ``flush``,
+    ``close``/``__exit__``, ``seek``, ``truncate``, ``read`` or when a write no longer fits (old
+    buffer first, a write larger than the buffer straight through); a crash loses every unflushed
+    buffer, and ``cut`` tears the flush that is in progress; buffers of objects dropped without
+    ``close`` are never written (CPython would flush them at garbage collection);
   * ``rename``/``replace``/``remove``/``mkdir``/``rmdir``/``symlink`` are atomic;
   * data and directory operations are durable in program order (no fsync reordering);
   * after the crash the process is dead: *every* later call on this filesystem raises ``Crash``
@@ -192,7 +198,16 @@ class _Stat:
 # ---- file object ----------------------------------------------------------------------------------
 
 class FakeFile:
-    def __init__(self, fs, ino, path, mode):
+    """Buffered like CPython's BufferedWriter/BufferedRandom unless opened with buffering=0: write()
+    only fills a per-handle buffer; the buffer reaches the inode (one mutating step, which may be
+    the crash and may be torn) at flush(), close()/__exit__, seek(), truncate(), read(), or when a
+    write does not fit into the buffer any more (then the old buffer is flushed first and a write
+    larger than the buffer goes straight through).  Other handles and the disk after a crash never
+    see buffered data."""
+
+    def __init__(self, fs, ino, path, mode, bufsize=0):
+        self.bufsize = bufsize      # 0 = unbuffered
+        self._buf = None
         self.fs = fs
         self.ino = ino
         self.name = path
@@ -242,12 +257,8 @@ class FakeFile:
         self._pos = pos + n
 
     # -- file API
-    def write(self, data):
-        self._live()
-        if not self._w:
-            raise _io.UnsupportedOperation("not writable")
-        if self._text != isinstance(data, str) and not isinstance(data, Rope):
-            raise TypeError("write() argument has the wrong type for mode %r" % (self.mode,))
+    def _raw_write(self, data):
+        """one mutating step: data goes to the inode, or only its first `cut` units if this is the crash"""
         fs = self.fs
         n = len(data)
         if fs._tick(("write", self.name, n)):
@@ -256,12 +267,40 @@ class FakeFile:
                 self._store(data if cut >= n else data[:cut])
             raise Crash()
         self._store(data)
+
+    def _flush(self):
+        if self._buf is not None:
+            buf = self._buf
+            self._buf = None
+            self._raw_write(buf)
+
+    def write(self, data):
+        self._live()
+        if not self._w:
+            raise _io.UnsupportedOperation("not writable")
+        if self._text != isinstance(data, str) and not isinstance(data, Rope):
+            raise TypeError("write() argument has the wrong type for mode %r" % (self.mode,))
+        n = len(data)
+        if self.bufsize == 0:
+            self._raw_write(data)
+            return n
+        have = self.fs._len(self._buf)
+        if have + n <= self.bufsize:
+            if n > 0:
+                self._buf = self.fs._cat(self._buf, data)
+            return n
+        self._flush()
+        if n > self.bufsize:
+            self._raw_write(data)
+        else:
+            self._buf = data
         return n
 
     def truncate(self, size=None):
         self._live()
         if not self._w:
             raise _io.UnsupportedOperation("not writable")
+        self._flush()
         if size is None:
             size = self.tell()
         self.fs._step(("truncate", self.name, size))
@@ -276,6 +315,7 @@ class FakeFile:
         self._live()
         if not self._r:
             raise _io.UnsupportedOperation("not readable")
+        self._flush()
         cur = self._content()
         if cur is None or self._end:
             return self.fs._empty(self._text)
@@ -292,6 +332,7 @@ class FakeFile:
 
     def seek(self, off, whence=0):
         self._live()
+        self._flush()
         if whence == 2:
             if off != 0:
                 raise NotImplementedError("fakefs: seek relative to the end with an offset")
@@ -305,18 +346,24 @@ class FakeFile:
 
     def tell(self):
         self._live()
-        return self._size() if self._end else self._pos
+        return (self._size() if self._end else self._pos) + self.fs._len(self._buf)
 
     def flush(self):
         self._live()
+        self._flush()
 
     def fileno(self):
         self._live()
         return 1000 + self.ino
 
     def close(self):
-        # closing never touches the disk in this model (writes are not buffered)
+        if self.closed:
+            return
         self.closed = True
+        if self.fs.crashed or self.epoch != self.fs.epoch:
+            self._buf = None        # the process is dead: buffered data is lost
+            return
+        self._flush()
 
     def __enter__(self):
         self._live()
@@ -422,6 +469,7 @@ class FakeFS:
         self.dead = set()           # pids for which kill() reports ESRCH
         self.pid = 4242
         self.unwritable = set()     # paths for which access(W_OK) is False
+        self.bufsize = 8192         # buffer of files opened without an explicit buffering argument
         self.steps = 0
         self.crash_at = -1
         self.cut = 0
@@ -546,7 +594,7 @@ class FakeFS:
              opener=None):
         self._alive()
         if isinstance(path, int):
-            return self.fdopen(path, mode)
+            return self.fdopen(path, mode, buffering)
         p = self._p(path)
         flags = "".join(sorted(mode))
         if flags.replace("b", "").replace("+", "").replace("t", "") not in ("r", "w", "a"):
@@ -557,7 +605,7 @@ class FakeFS:
         if "r" in mode:
             if k is None:
                 raise _err(_errno.ENOENT, p)
-            return FakeFile(self, self.names[self._resolve(p)], p, mode)
+            return FakeFile(self, self.names[self._resolve(p)], p, mode, self._bufsize(buffering))
         self._need_parent(p)
         if k is None:
             self._step(("create", p))
@@ -567,7 +615,12 @@ class FakeFS:
             if self.data[ino] is not None:
                 self._step(("truncate-open", p))
                 self.data[ino] = None
-        return FakeFile(self, self.names[self._resolve(p)], p, mode)
+        return FakeFile(self, self.names[self._resolve(p)], p, mode, self._bufsize(buffering))
+
+    def _bufsize(self, buffering):
+        if buffering == 0:
+            return 0
+        return buffering if buffering > 1 else self.bufsize
 
     def _resolve(self, p):
         seen = 0
@@ -600,10 +653,10 @@ class FakeFS:
         self._fds[fd] = (ino, p)
         return fd
 
-    def fdopen(self, fd, mode="r", *a, **k):
+    def fdopen(self, fd, mode="r", buffering=-1, *a, **k):
         self._alive()
         ino, p = self._fds[fd]
-        f = FakeFile(self, ino, p, mode)
+        f = FakeFile(self, ino, p, mode, self._bufsize(buffering))
         f._end = "a" in mode
         return f
 
@@ -980,6 +1033,60 @@ def _script(o, op, g, root):
     return out
 
 
+def _bufscript(o, op, root):
+    """buffering: what a second reader / stat sees after each call (explicit 16 unit buffer, so that the
+    real file objects and the model use the same size)"""
+    out = []
+    p = _pp.join(root, "buf")
+
+    def see():
+        with op(p, "rb") as r:
+            out.append((o.stat(p).st_size, r.read()))
+
+    f = op(p, "wb", 16)
+    f.write(b"abc")
+    see()                       # nothing yet
+    f.write(b"defgh")
+    out.append(f.tell())
+    see()
+    f.flush()
+    see()                       # 8 bytes
+    f.write(b"x" * 10)
+    see()
+    f.write(b"y" * 10)          # does not fit: the ten x go out, the ten y are buffered
+    see()
+    f.write(b"z" * 40)          # larger than the buffer: y flushed, z straight through
+    see()
+    f.write(b"q")
+    see()
+    f.seek(0, 2)                # seek flushes
+    see()
+    f.write(b"r")
+    out.append(f.tell())
+    f.close()
+    see()
+    f.close()
+    with op(p, "ab", 0) as u:   # unbuffered: visible at once
+        u.write(b"1")
+        see()
+    with op(p, "rb+", 16) as g:
+        g.write(b"AB")
+        see()
+        out.append(g.read(3))   # read flushes first
+        see()
+        g.write(b"CD")
+        g.truncate()
+        see()
+    fd = o.open(_pp.join(root, "buf2"), o.O_EXCL | o.O_CREAT | o.O_RDWR)
+    with o.fdopen(fd, "w+b", 16) as h:
+        h.write(b"tmp")
+        out.append(o.stat(_pp.join(root, "buf2")).st_size)
+    out.append(o.stat(_pp.join(root, "buf2")).st_size)
+    o.remove(p)
+    o.remove(_pp.join(root, "buf2"))
+    return out
+
+
 def selftest():
     """the same script against the real OS (in a temp dir) and against the model: logs must agree"""
     import shutil
@@ -987,20 +1094,34 @@ def selftest():
     real_root = tempfile.mkdtemp(prefix="fakefs_selftest_")
     try:
         a = _script(_os, _builtins.open, _real_glob, real_root)
+        a += _bufscript(_os, _builtins.open, real_root)
     finally:
         shutil.rmtree(real_root, ignore_errors=True)
     fs = FakeFS()
     fs.dirs.add("/r")
     b = _script(fs.os, fs.open, fs.glob_module, "/r")
+    b += _bufscript(fs.os, fs.open, "/r")
     if a != b:
         diff = [(i, x, y) for i, (x, y) in enumerate(zip(a, b)) if x != y]
         raise AssertionError("fakefs disagrees with the real OS: %r" % (diff[:4],))
-    # crash machinery: a torn write leaves a prefix, later calls keep raising
+    # crash machinery: buffered data is lost, a torn flush leaves a prefix, later calls keep raising
+    fs = FakeFS()
+    fs.arm(crash_at=1)
+    f = fs.open("/y", "wb")
+    f.write(b"abcdef")          # buffered only
+    try:
+        fs.rename("/y", "/z")   # step 1: the crash
+        raise AssertionError("no crash")
+    except Crash:
+        pass
+    f.close()
+    fs.reboot()
+    assert fs.get("/y") == b"" and fs.get("/z") is None
     fs = FakeFS()
     fs.arm(crash_at=1, cut=2)
-    f = fs.open("/x", "wb")
     try:
-        f.write(b"abcdef")
+        with fs.open("/x", "wb") as f:
+            f.write(b"abcdef")
         raise AssertionError("no crash")
     except Crash:
         pass
